@@ -62,6 +62,9 @@ namespace chaiscript {
 
   /// \brief The main object that the ChaiScript user will use.
   class ChaiScript_Basic {
+#ifdef CHAISCRIPT_VERIF
+    friend struct ::chaiscript_verif::Access;
+#endif
     mutable chaiscript::detail::threading::shared_mutex m_mutex;
     mutable chaiscript::detail::threading::recursive_mutex m_use_mutex;
 
